@@ -358,6 +358,11 @@ def quad_queries(b, o, s, rnd, rs=True, huge=(-1, -2), syms=(0, 1, 2, 3, 4, 5, 2
         b.qg(o, "select", [c], occ_args(cnt, rnd=rnd, k=8, huge=huge[:1]))
     b.qg(o, "occs", list(syms), [0])
     b.qg(o, "occs_smaller", list(syms), [0])
+    # the block-level rank used by the prefetching rank of the trees (unsafe: legal arguments only)
+    b.qg(o, "rank_block_unchecked", [0, 1, 2, 3], [p for p in pos if 0 <= p <= n])
+    # prefetch hints accept any position
+    b.qg(o, "prefetch_info", [], pos + [n + 5000, 1 << 30])
+    b.qg(o, "prefetch_data", [], pos + [n + 5000, 1 << 30])
 
 
 def camp_c05(rnd, tier):
@@ -425,6 +430,10 @@ def bit_rs_queries(b, o, s, rnd, huge=(-1, -2), rank=True, select0=True):
     n = len(s)
     b.meta(o)
     pos = position_args(n, extra=s.boundaries(), rnd=rnd, k=30, huge=huge)
+    if rank:
+        # RSWide's prefetch hints (not offered by RSNarrow: the harness answers "not applicable")
+        b.qg(o, "prefetch_info", [], pos[:8] + list(huge))
+        b.qg(o, "prefetch_data", [], pos[:8] + list(huge))
     if n <= 64:
         pos = clip_args(list(range(0, n + 3)) + list(huge))
     b.qg(o, "get", [], pos)
@@ -595,6 +604,9 @@ def bvm_observe(b, o, bits, rnd, kind="BVM", light=False):
         b.qg(o, "get_bits", [], pairs)
         nw = (n + 63) // 64
         b.qg(o, "get_word", [], list(range(nw)))
+        if kind == "BV":
+            b.qg(o, "n_lines", [], [0])
+            b.qg(o, "prefetch_line", [], [0, 1, (n + 511) // 512, -1, -2])
         if n > 0:
             lines = (n + 511) // 512
             pad = [w for w in range(nw, lines * 8)][:3]
